@@ -73,8 +73,10 @@ Track(s) ==
              IF s.acc[i].st # "calling" THEN s.acc[i]
              ELSE [s.acc[i] EXCEPT !.lo = IF s.bp THEN 0 ELSE IF d < @ THEN d ELSE @,
                                    !.hi = IF s.bp THEN 99 ELSE IF d + sh + nc - 1 > @ THEN d + sh + nc - 1 ELSE @,
-                                   !.oy = @ \/ Op(s) \in {"yes", "closing", "reopening"},
-                                   !.on = @ \/ Op(s) \in {"no", "closing", "reopening"}]]]
+                                   \* (ovl: open_socket() and close() calls overlapped - which of them took effect
+                                   \* last is not decided by the order in which they were CALLED)
+                                   !.oy = @ \/ s.ovl \/ Op(s) \in {"yes", "closing", "reopening"},
+                                   !.on = @ \/ s.ovl \/ Op(s) \in {"no", "closing", "reopening"}]]]
 
 -----------------------------------------------------------------------------
 (* public calls *)
@@ -228,7 +230,7 @@ Quiesce(s) ==
 HealBegin(s) == [s EXCEPT !.healFrom = Len(s.acc)]
 
 HealEnd(s) ==
-  LET s1 == IF Op(s) = "yes" /\ Cardinality(UpConns(s)) # 1 THEN V(s, "HealNotConnected") ELSE s
+  LET s1 == IF Op(s) = "yes" /\ ~s.ovl /\ Cardinality(UpConns(s)) # 1 THEN V(s, "HealNotConnected") ELSE s
       s2 == IF \E i \in Idx(s) : i > s.healFrom /\ s.acc[i].st = "ok" /\ s.acc[i].tx = 0
                                   /\ Alive(s, s.acc[i]) /\ NeedsTx(s.acc[i])
             THEN V(s1, "HealNotTransmitting") ELSE s1
